@@ -198,7 +198,7 @@ def _site(depth=2):
 
 class Sim(object):
     def __init__(self, chooser, tick_ns=1000, step_cap=300000, horizon_s=3600.0,
-                 line_mode=False, wall_timeout=60.0):
+                 line_mode=False, wall_timeout=20.0):
         self.chooser = chooser
         self.now_ns = 0
         self.tick_ns = tick_ns
@@ -1155,12 +1155,30 @@ class Shim(object):
         return getattr(self._real, name)
 
 
+def sleep(secs):
+    s = current()
+    if s is not None:
+        return s.sleep(secs)
+    return _rtime.sleep(secs)
+
+
+def wall_time():
+    s = current()
+    if s is not None:
+        return 1.7e9 + s.monotonic()
+    return _rtime.time()
+
+
 threading_shim = Shim(_rt, Lock=Lock, RLock=RLock, Condition=Condition, Event=Event,
-                      Semaphore=Semaphore, Thread=Thread)
-time_shim = Shim(_rtime, monotonic=monotonic)
+                      Semaphore=Semaphore, BoundedSemaphore=Semaphore, Thread=Thread)
+time_shim = Shim(_rtime, monotonic=monotonic, sleep=sleep, time=wall_time, perf_counter=monotonic)
 queue_shim = Shim(_rqueue, SimpleQueue=SimpleQueue)
 
 REAL_TO_SIM = {
     _rt.Lock: Lock, _rt.RLock: RLock, _rt.Condition: Condition, _rt.Event: Event,
-    _rt.Semaphore: Semaphore, _rt.Thread: Thread, _rtime.monotonic: monotonic,
+    _rt.Semaphore: Semaphore, _rt.BoundedSemaphore: Semaphore, _rt.Thread: Thread,
+    _rtime.monotonic: monotonic, _rtime.sleep: sleep, _rtime.time: wall_time, _rtime.perf_counter: monotonic,
+    _rqueue.SimpleQueue: SimpleQueue,
+    # whole modules bound by `import threading` / `import time` / `import queue`
+    _rt: threading_shim, _rtime: time_shim, _rqueue: queue_shim,
 }
